@@ -204,7 +204,7 @@ package service
 //@ preserves wf: WF(raw)
 //@ preserves [C03] deposits_in_custody: depInv(raw, bal)
 //@ requires a3_signer_ordinary: ordinary(msg.Owner)
-//@ requires a2_validated: (forall d Str :: amt(msg.Deposit, d) >= 0) && len(msg.Provider) > 0 && len(msg.Owner) > 0
+//@ requires a2_validated: (forall d Str :: amt(msg.Deposit, d) >= 0) && coinsValid(msg.Deposit) && msg.QoS > 0 && len(msg.Provider) > 0 && len(msg.Owner) > 0
 //@ ensures [C05] module_services_cannot_be_bound: err == NoErr ==> !moduleSvcFound(msg.ServiceName)
 //@ ensures [C05] provider_keeps_its_owner: err == NoErr ==> (ownerFound(old(raw), msg.Provider) ==> addrEq(msg.Owner, ownerOf(old(raw), msg.Provider)))
 //@ ensures [C05] only_the_signer_is_debited: forall a Bytes, d Str :: {bal[a][d]} a != msg.Owner ==> bal[a][d] >= old(bal)[a][d]
@@ -226,7 +226,7 @@ package service
 //@ preserves wf: WF(raw)
 //@ preserves [C03] deposits_in_custody: depInv(raw, bal)
 //@ requires a3_signer_ordinary: ordinary(msg.Owner)
-//@ requires a2_validated: (forall d Str :: amt(msg.Deposit, d) >= 0)
+//@ requires a2_validated: (forall d Str :: amt(msg.Deposit, d) >= 0) && (len(msg.Deposit) == 0 || coinsValid(msg.Deposit))
 //@ ensures [C05] only_the_binding_owner: err == NoErr ==> bindFound(old(raw), msg.ServiceName, msg.Provider) && addrEq(msg.Owner, bindOf(old(raw), msg.ServiceName, msg.Provider).Owner)
 //@ ensures [C05] only_the_signer_is_debited: forall a Bytes, d Str :: {bal[a][d]} a != msg.Owner ==> bal[a][d] >= old(bal)[a][d]
 //@ ensures [C15] definitions_bindings_and_provider_owners_are_for_life: forLife(old(raw), raw)
@@ -280,7 +280,7 @@ package service
 //@ preserves wf: WF(raw)
 //@ preserves [C03] deposits_in_custody: depInv(raw, bal)
 //@ requires a3_signer_ordinary: ordinary(msg.Owner)
-//@ requires a2_validated: (forall d Str :: amt(msg.Deposit, d) >= 0)
+//@ requires a2_validated: (forall d Str :: amt(msg.Deposit, d) >= 0) && (len(msg.Deposit) == 0 || coinsValid(msg.Deposit))
 //@ ensures [C05] only_the_binding_owner: err == NoErr ==> bindFound(old(raw), msg.ServiceName, msg.Provider) && addrEq(msg.Owner, bindOf(old(raw), msg.ServiceName, msg.Provider).Owner)
 //@ ensures [C05] only_the_signer_is_debited: forall a Bytes, d Str :: {bal[a][d]} a != msg.Owner ==> bal[a][d] >= old(bal)[a][d]
 //@ ensures error_changes_nothing: err != NoErr ==> raw == old(raw) && bal == old(bal)
